@@ -179,7 +179,8 @@ def bounded(check, tier, seed):
               "mode (both orders), splitlines keepends False/True, ljust/rjust at widths below/at/above the length with and without fill "
               "character, join; text/non-text answer compared with str, pieces per character, shared/invented formatting",
               bound="runs<=4, run length<=3", exhaustive=False)
-    texts = ["", "a", "ab", " b", "a\n", "Ｅa", "a.b"]
+    # (ß ŉ ﬁ İ: characters whose upper / lower / title / casefold mapping has another LENGTH - 'ß'.upper() == 'SS')
+    texts = ["", "a", "ab", " b", "a\n", "Ｅa", "a.b", "straße", "ŉa ﬁ", "İx"]
     vals = []
     for t1 in texts:
         vals.append([(t1, ATT_POOL[1])])
